@@ -557,5 +557,18 @@ int clock_gettime(clockid_t clk, struct timespec *ts) {
         ts->tv_nsec = t % 1000000000LL;
         return 0;
     }
+    /* VERIF_REALTIME=<seconds since the epoch>: the calendar clock reads that instant (advancing 1 ms per query): the date is
+     * an answer of the environment like any other (a year-2038 second, a leap day, midnight, the epoch itself) */
+    static long long real_base = -1, real_ticks = 0;
+    if (real_base == -1) {
+        const char *s = getenv("VERIF_REALTIME");
+        real_base = (s && *s) ? atoll(s) : -2;
+    }
+    if (real_base >= 0 && (clk == CLOCK_REALTIME || clk == CLOCK_REALTIME_COARSE) && ts) {
+        long long k = __atomic_add_fetch(&real_ticks, 1, __ATOMIC_SEQ_CST);
+        ts->tv_sec = real_base + k / 1000;
+        ts->tv_nsec = (k % 1000) * 1000000L;
+        return 0;
+    }
     return real_clock_gettime(clk, ts);
 }
